@@ -86,14 +86,14 @@ Definition published (s : mq) (id : Z) : Z := if (0 <=? id) && (id <? q_next s) 
 Definition acc (s : mq) (id : Z) : Prop :=
   cnt id (q_pending s) + cnt id (q_inflight s) = cnt id (q_msgs s) /\
   cnt id (q_msgs s) + cnt id (g_acked s) + cnt id (q_dead s) + cnt id (g_dlqlost s) + cnt id (g_dropped s)
-    = published s id /\
+    + cnt id (g_reproc s) = published s id /\
   0 <= q_next s.
 
 Ltac nonneg id s :=
   pose proof (cnt_nonneg id (q_pending s)); pose proof (cnt_nonneg id (q_inflight s));
   pose proof (cnt_nonneg id (q_msgs s)); pose proof (cnt_nonneg id (g_acked s));
   pose proof (cnt_nonneg id (q_dead s)); pose proof (cnt_nonneg id (g_dlqlost s));
-  pose proof (cnt_nonneg id (g_dropped s)).
+  pose proof (cnt_nonneg id (g_dropped s)); pose proof (cnt_nonneg id (g_reproc s)).
 
 Ltac memcase x l :=
   let E := fresh "E" in
@@ -171,6 +171,7 @@ Proof.
     apply negb_false_iff in EI. pose proof (mem_true_cnt _ _ EI).
     destruct (Z.eqb_spec id mid); [subst id|lia].
     destruct ((0 <=? mid) && (mid <? q_next s)); lia.
+  - sc. unfold acc, published in *. destruct A as (H1 & H2 & H3). nonneg id s. sc. rewrite cnt_app. lia.
 Qed.
 
 Lemma run_from_app cfg s a b :
@@ -200,7 +201,7 @@ Proof. apply acc_run_from, acc_init. Qed.
 Theorem mq_accounting cfg ops id :
   let s := run cfg ops in
   cnt id (q_pending s) + cnt id (q_inflight s) + cnt id (g_acked s) + cnt id (q_dead s)
-    + cnt id (g_dlqlost s) + cnt id (g_dropped s) = published s id.
+    + cnt id (g_dlqlost s) + cnt id (g_dropped s) + cnt id (g_reproc s) = published s id.
 Proof. sc. destruct (acc_run cfg ops id) as (H1 & H2 & _). lia. Qed.
 
 (** The stored set is exactly pending + in flight, and never a stale id. *)
@@ -285,6 +286,7 @@ Proof.
     destruct (mem mid0 (q_resched s)); [split; [exact G|intros x [<-|[]]; sc; tauto]|].
     destruct (c_max cfg <=? _); [split; [apply gone_reject; exact G|intros x [<-|[]]; sc; tauto]|].
     split; [exact G|intros x [<-|[]]; sc; tauto].
+  - split; [exact G|intros x []].
 Qed.
 
 Lemma gone_outputs cfg ops : forall s mid, gone s mid ->
@@ -497,6 +499,7 @@ Proof.
   - sc. rewrite susp_reject. reflexivity.
   - destruct (negb _); [reflexivity|]. destruct (mem mid (q_resched s)); [reflexivity|].
     destruct (c_max cfg <=? _); sc; [rewrite susp_reject|]; reflexivity.
+  - reflexivity.
 Qed.
 
 Lemma lookup_run_from cfg ops : forall s h,
@@ -522,4 +525,89 @@ Theorem mq_delivery_reaches_consumer cfg s h mid c ops now :
 Proof.
   cbn zeta. intros L F. cbn [step]. rewrite (lookup_run_from cfg ops s h F), L.
   destruct (mem mid _); reflexivity.
+Qed.
+
+(* ------------------------------------------------------------------ *)
+(** * The hypotheses of the conditional theorems are satisfiable *)
+Definition exq_cfg : mqcfg := {| c_max := 1; c_cap := None; c_delay := 5; c_dlq := true; c_dlqcap := None |}.
+Definition exq_ops : list op := [Subscribe 7; Publish; Publish; PollBegin 1].
+
+Example mq_hypotheses_satisfiable :
+  let s := run exq_cfg exq_ops in
+  0 <= 0 < q_next s /\ In 0 (q_msgs s) /\ c_max exq_cfg <= m_count (q_obj s 0) /\
+  In 0 (q_inflight s) /\ ~ In 0 (q_resched s) /\
+  q_pending s = [1] /\ q_cons s <> [] /\
+  lookup 1 (q_susp s) = Some (0, 7) /\
+  (let s2 := run {| c_max := 3; c_cap := None; c_delay := 5; c_dlq := true; c_dlqcap := None |} exq_ops in
+   In 0 (q_inflight s2) /\ ~ In 0 (q_resched s2) /\ m_count (q_obj s2 0) < 3).
+Proof.
+  vm_compute. repeat split; try discriminate; try (left; reflexivity); try tauto; intros [H|H]; try discriminate; try destruct H.
+Qed.
+
+(* ------------------------------------------------------------------ *)
+(** * DLQ reprocess: the one way a message gets lost *)
+
+Lemma reproc_ack s m : g_reproc (do_ack s m) = g_reproc s.
+Proof. unfold do_ack. destruct (negb _); reflexivity. Qed.
+
+Lemma reproc_reject cfg s m rq : g_reproc (do_reject cfg s m rq) = g_reproc s.
+Proof.
+  unfold do_reject. destruct (negb _); [reflexivity|]. destruct (rq && _); [reflexivity|].
+  destruct (c_dlq cfg); reflexivity.
+Qed.
+
+Lemma reproc_deliver_begin s h m : g_reproc (fst (deliver_begin s h m)) = g_reproc s.
+Proof. unfold deliver_begin. destruct (negb _); [reflexivity|]. destruct (q_cons s); reflexivity. Qed.
+
+Lemma reproc_step cfg s o : o <> DlqReprocessAll -> g_reproc (fst (step cfg s o)) = g_reproc s.
+Proof.
+  intros N. destruct o; cbn [step]; try contradiction.
+  - destruct (mem c (q_cons s)); reflexivity.
+  - destruct (mem c (q_cons s)); reflexivity.
+  - destruct (mq_full cfg s); reflexivity.
+  - destruct (q_pending s); [reflexivity|]. destruct (q_cons s) eqn:EC; [reflexivity|]. apply reproc_deliver_begin.
+  - rewrite reproc_deliver_begin. reflexivity.
+  - destruct (lookup h (q_susp s)) as [[m c]|]; [|reflexivity]. destruct (mem m (q_msgs s)); reflexivity.
+  - apply reproc_ack.
+  - apply reproc_reject.
+  - destruct (negb _); [reflexivity|]. destruct (mem mid (q_resched s)); [reflexivity|].
+    destruct (c_max cfg <=? _); [apply reproc_reject|reflexivity].
+Qed.
+
+Lemma reproc_run_from cfg ops : forall s,
+  Forall (fun o => o <> DlqReprocessAll) ops -> g_reproc (fst (run_from cfg s ops)) = g_reproc s.
+Proof.
+  induction ops as [|o r IH]; intros s F; [reflexivity|]. inversion F; subst. cbn.
+  pose proof (reproc_step cfg s o H1) as E. destruct (step cfg s o) as [s1 o1]. cbn in E.
+  specialize (IH s1 H2). destruct (run_from cfg s1 r). cbn in *. congruence.
+Qed.
+
+(** Full statement ("never lost", every operation the messaging package offers,
+    DLQ reprocessing included): REFUTED on the faithful model — the queue
+    ignores the republish events of DeadLetterQueue.reprocess_all, so the
+    message is in none of the classes afterwards. *)
+Definition never_lost_statement : Prop :=
+  forall cfg ops id, let s := run cfg ops in
+  published s id = 1 ->
+  cnt id (q_pending s) + cnt id (q_inflight s) + cnt id (g_acked s) + cnt id (q_dead s)
+    + cnt id (g_dlqlost s) + cnt id (g_dropped s) = 1.
+
+Theorem mq_never_lost_refuted : ~ never_lost_statement.
+Proof.
+  intros H.
+  specialize (H {| c_max := 3; c_cap := None; c_delay := 5; c_dlq := true; c_dlqcap := None |}
+                [Subscribe 0; Publish; PollBegin 1; DeliverEnd 1 5; Reject 0 false; DlqReprocessAll] 0).
+  vm_compute in H. specialize (H eq_refl). discriminate.
+Qed.
+
+(** PARTIAL: without DLQ reprocessing (publish / poll / ack / reject / timeout /
+    subscribe sequences) the statement holds. *)
+Theorem mq_never_lost_partial cfg ops id :
+  Forall (fun o => o <> DlqReprocessAll) ops ->
+  let s := run cfg ops in
+  cnt id (q_pending s) + cnt id (q_inflight s) + cnt id (g_acked s) + cnt id (q_dead s)
+    + cnt id (g_dlqlost s) + cnt id (g_dropped s) = published s id.
+Proof.
+  intros F. cbn zeta. pose proof (mq_accounting cfg ops id) as A. cbn zeta in A.
+  unfold run in *. rewrite (reproc_run_from cfg ops mq_init F) in A. cbn [g_reproc mq_init cnt] in A. lia.
 Qed.
